@@ -411,6 +411,64 @@ fn check_taiko(run: &mut Run, id: &str, map: &Beatmap, settings: &Settings, pass
     );
     run.line(id, req, resp);
     run.count("tskill:lines");
+    // the interface check: TAIKO's preprocessing model on the real TaikoObjects, mapped through
+    // `trecOfPre`, must give exactly the records the hook dumped from the real object graph
+    if let Ok(Ok(pre)) = guarded(|| tverif::pre_dump(&d, map)) {
+        let hn = |v: f64| if v.is_nan() { "nan".to_owned() } else { hex(v.to_bits()) };
+        let on = |v: Option<f64>| v.map_or("-".to_owned(), hn);
+        let objs: Vec<String> = pre.objects.iter().map(|(k, t)| format!("{}:{}", ["c", "r", "n"][usize::from((*k).min(2))], t.to_bits())).collect();
+        let bpms: Vec<String> = trace.records.iter().map(|r| hex(r.effective_bpm.to_bits())).collect();
+        let recs: Vec<String> = trace
+            .records
+            .iter()
+            .map(|r| {
+                let mf = match r.mono_first {
+                    None => "-:-:-".to_owned(),
+                    Some((m, None)) => format!("{m}:-:-"),
+                    Some((m, Some((a, rep)))) => format!("{m}:{a}:{}", opt_n(rep)),
+                };
+                let af = match r.alt_first {
+                    None => "-:-".to_owned(),
+                    Some((a, rep)) => format!("{a}:{}", opt_n(rep)),
+                };
+                let rh = match &r.rhythm_first {
+                    None => "-".to_owned(),
+                    Some(g) => {
+                        let chain: Vec<String> = g.interval_chain.iter().map(|x| x.map_or("n".to_owned(), hn)).collect();
+                        format!("{}:{}:{}:{}", hn(g.interval_ratio), g.len, on(g.duration), if chain.is_empty() { "e".to_owned() } else { chain.join("/") })
+                    }
+                };
+                format!(
+                    "{},{},{},{},{},{},{},{},{},{},{},{},{mf},{af},{},{rh},{}",
+                    hn(r.start_time),
+                    hn(r.delta_time),
+                    u8::from(r.is_hit),
+                    hn(r.effective_bpm),
+                    hn(r.ratio),
+                    on(r.prev_start),
+                    on(r.prev2_start),
+                    r.mono_index,
+                    on(r.prev_mono_start_2),
+                    on(r.prev_mono_start_8),
+                    on(r.prev_color_change_start),
+                    on(r.next_color_change_start),
+                    opt_n(r.rep_first),
+                    on(r.pattern_first_ratio),
+                )
+            })
+            .collect();
+        run.line(
+            &format!("{id}#trec"),
+            format!(
+                "TREC {} {} {}",
+                pre.clock_rate.to_bits(),
+                if objs.is_empty() { "-".to_owned() } else { objs.join(";") },
+                if bpms.is_empty() { "-".to_owned() } else { bpms.join(";") }
+            ),
+            crate::common::show_long(&recs),
+        );
+        run.count("trec:lines");
+    }
 }
 
 /// A taiko map from a colour pattern (bit i of `pattern` = rim) and a timing style.
